@@ -1,6 +1,8 @@
 package main
 
 import (
+	"runtime"
+	"os"
 	"fmt"
 	"go/types"
 	"sort"
@@ -226,7 +228,29 @@ func (x *Exec) havocAll(st *State, why string) {
 	st.top = ntop
 }
 
-func (x *Exec) nextGen() int { x.genCtr++; return x.genCtr }
+func (x *Exec) nextGen() int {
+	x.genCtr++
+	if os.Getenv("GVC_DEBUG_GEN") != "" {
+		fmt.Fprintf(os.Stderr, "GEN %d in %s\n%s\n", x.genCtr, x.key, debugStack())
+	}
+	return x.genCtr
+}
+
+func debugStack() string {
+	b := make([]byte, 4096)
+	n := runtime.Stack(b, false)
+	lines := strings.Split(string(b[:n]), "\n")
+	var out []string
+	for _, l := range lines {
+		if strings.Contains(l, "gvc/") && !strings.Contains(l, "state.go") {
+			out = append(out, strings.TrimSpace(l))
+		}
+		if len(out) >= 4 {
+			break
+		}
+	}
+	return strings.Join(out, " <- ")
+}
 
 // ---- derived references
 
